@@ -7,6 +7,7 @@ import (
 	"fmt"
 	"io"
 	"log/slog"
+	"sync/atomic"
 	"time"
 
 	"gosim/hb"
@@ -74,24 +75,24 @@ type OpRec struct {
 
 // World ties the client under test to the simulated environment.
 type World struct {
-	Env    *Env
-	Plan   *Plan
-	Client gohbase.Client
-	Admin  gohbase.AdminClient
-	Recs   [][]*OpRec
-	root   context.Context
-	stop   context.CancelFunc
-	tasksDone int
-	ClosedStep uint64
-	ClosedT    time.Duration
-	CloseReturned bool
-	TaskG  []*simrt.G
-	pending []Violation // violations found by per-step hooks
-	StableReason string
+	Env             *Env
+	Plan            *Plan
+	Client          gohbase.Client
+	Admin           gohbase.AdminClient
+	Recs            [][]*OpRec
+	root            context.Context
+	stop            context.CancelFunc
+	tasksDone       atomic.Int32
+	ClosedStep      uint64
+	ClosedT         time.Duration
+	CloseReturned   bool
+	TaskG           []*simrt.G
+	pending         []Violation // violations found by per-step hooks
+	StableReason    string
 	CloseReturnStep uint64
 	CloseReturnT    time.Duration
 	quietMark       struct {
-		set                bool
+		set               bool
 		dials, zk, frames int
 	}
 }
@@ -534,11 +535,11 @@ func (w *World) runTask(t int) {
 		simrt.Yield("task:op")
 		w.runOp(w.Recs[t][i])
 	}
-	w.tasksDone++
+	w.tasksDone.Add(1)
 }
 
 // AllDone reports whether every task has finished its operations.
-func (w *World) AllDone() bool { return w.tasksDone == len(w.Recs) }
+func (w *World) AllDone() bool { return int(w.tasksDone.Load()) == len(w.Recs) }
 
 // cancelOp implements the "cancel" fault.
 func (w *World) cancelOp(task, idx, slot int) {
